@@ -8,17 +8,30 @@ import (
 // TimeOfDay returns the current time as a system.Time object.
 func TimeOfDay(ctx *expr.Context, input system.Collection, args ...expr.Expression) (system.Collection, error) {
 	timeString := ctx.Now.Format("15:04:05.000")
-	return system.Collection{system.MustParseTime(timeString)}, nil
+	value, err := system.ParseTime(timeString)
+	if err != nil {
+		return nil, err
+	}
+	return system.Collection{value}, nil
 }
 
 // Today returns the current date as a system.Date object.
 func Today(ctx *expr.Context, input system.Collection, args ...expr.Expression) (system.Collection, error) {
+	// A year outside 0001..9999 has no Date rendering: that is an error, not a panic.
 	dateString := ctx.Now.Format("2006-01-02")
-	return system.Collection{system.MustParseDate(dateString)}, nil
+	value, err := system.ParseDate(dateString)
+	if err != nil {
+		return nil, err
+	}
+	return system.Collection{value}, nil
 }
 
 // Now returns the current time as a system.DateTime object.
 func Now(ctx *expr.Context, input system.Collection, args ...expr.Expression) (system.Collection, error) {
 	dateTimeString := ctx.Now.Format("2006-01-02T15:04:05.000Z07:00")
-	return system.Collection{system.MustParseDateTime(dateTimeString)}, nil
+	value, err := system.ParseDateTime(dateTimeString)
+	if err != nil {
+		return nil, err
+	}
+	return system.Collection{value}, nil
 }
